@@ -5,6 +5,8 @@
  *   clock_gettime / gettimeofday / time : simulated wall clock, base ENVSHIM_CLOCK_BASE, +ENVSHIM_CLOCK_STEP ns per read
  *   read                   : on descriptors whose path ends in ".pest": short reads (ENVSHIM_READ_SHORT = max chunk,
  *                            0 = off) and EINTR before every ENVSHIM_READ_EINTR-th call (0 = off)
+ *   getpid / getppid       : ENVSHIM_PID / ENVSHIM_PID+1 when set (a fresh process otherwise gets an arbitrary pid)
+ *   sched_getaffinity      : reports ENVSHIM_NCPU CPUs when set (std::thread::available_parallelism)
  * At exit the number of times each interposed call actually fired is appended to ENVSHIM_LOG.
  * Build: gcc -O2 -fPIC -shared -o envshim.so envshim.c -ldl
  */
@@ -12,6 +14,7 @@
 #include <dlfcn.h>
 #include <errno.h>
 #include <fcntl.h>
+#include <sched.h>
 #include <stdint.h>
 #include <stdio.h>
 #include <stdlib.h>
@@ -25,6 +28,8 @@ static uint64_t rng_state;
 static int inited;
 static uint64_t clock_base_ns, clock_step_ns, clock_reads;
 static long read_short, read_eintr;
+static long fake_pid, fake_ncpu;
+static unsigned long n_getpid, n_affinity;
 static unsigned long n_getrandom, n_getrandom_bytes, n_clock, n_read_pest, n_read_short, n_read_eintr;
 static const char *log_path;
 static ssize_t (*real_read)(int, void *, size_t);
@@ -49,8 +54,8 @@ static void dump(void) {
     if (fd < 0) return;
     char buf[512];
     int n = snprintf(buf, sizeof buf,
-                     "SHIM getrandom=%lu getrandom_bytes=%lu clock=%lu read_pest=%lu read_short=%lu read_eintr=%lu\n",
-                     n_getrandom, n_getrandom_bytes, n_clock, n_read_pest, n_read_short, n_read_eintr);
+                     "SHIM getrandom=%lu getrandom_bytes=%lu clock=%lu read_pest=%lu read_short=%lu read_eintr=%lu getpid=%lu sched_getaffinity=%lu\n",
+                     n_getrandom, n_getrandom_bytes, n_clock, n_read_pest, n_read_short, n_read_eintr, n_getpid, n_affinity);
     if (n > 0) {
         ssize_t r = write(fd, buf, (size_t)n);
         (void)r;
@@ -66,6 +71,8 @@ static void init(void) {
     clock_step_ns = env_u64("ENVSHIM_CLOCK_STEP", 1000);
     read_short = (long)env_u64("ENVSHIM_READ_SHORT", 0);
     read_eintr = (long)env_u64("ENVSHIM_READ_EINTR", 0);
+    fake_pid = (long)env_u64("ENVSHIM_PID", 0);
+    fake_ncpu = (long)env_u64("ENVSHIM_NCPU", 0);
     log_path = getenv("ENVSHIM_LOG");
     real_read = (ssize_t(*)(int, void *, size_t))dlsym(RTLD_NEXT, "read");
     atexit(dump);
@@ -125,6 +132,36 @@ time_t time(time_t *out) {
     time_t s = (time_t)(t / 1000000000ull);
     if (out) *out = s;
     return s;
+}
+
+pid_t getpid(void) {
+    init();
+    n_getpid++;
+    if (fake_pid) return (pid_t)fake_pid;
+    static pid_t (*real)(void);
+    if (!real) real = (pid_t(*)(void))dlsym(RTLD_NEXT, "getpid");
+    return real();
+}
+
+pid_t getppid(void) {
+    init();
+    if (fake_pid) return (pid_t)(fake_pid + 1);
+    static pid_t (*real)(void);
+    if (!real) real = (pid_t(*)(void))dlsym(RTLD_NEXT, "getppid");
+    return real();
+}
+
+int sched_getaffinity(pid_t pid, size_t size, cpu_set_t *mask) {
+    init();
+    n_affinity++;
+    if (fake_ncpu && mask && size > 0) {
+        memset(mask, 0, size);
+        for (long i = 0; i < fake_ncpu && (size_t)i < size * 8; i++) CPU_SET_S((int)i, size, mask);
+        return 0;
+    }
+    static int (*real)(pid_t, size_t, cpu_set_t *);
+    if (!real) real = (int (*)(pid_t, size_t, cpu_set_t *))dlsym(RTLD_NEXT, "sched_getaffinity");
+    return real(pid, size, mask);
 }
 
 static int is_pest_fd(int fd) {
